@@ -1,4 +1,5 @@
 import MgpuProofs.C14FlushLive
+import MgpuProofs.C14FlushCount
 /-! # C14 — wait counts and wavefront termination across PIPELINE FLUSH / RESTART (page migration)
 
 Statements are about `C14.Flush.run c St.init ops` (`MgpuModel/C14_Flush.lean`): the compute unit's
@@ -14,9 +15,11 @@ own `runPipeline` guard), the memory answers only requests it received, and the 
 follows its protocol (a flush request only after the previous restart was answered, a restart
 request only after the flush was acknowledged — `ctrlMiddleware` + the driver's `numRestartACK`).
 A flush request may therefore arrive **while the shadow lists are still being re-sent**. All port
-capacities are arbitrary (`0 < capCP`). The statements without the protocol hypothesis are refuted
-below (`…_refuted`) and reproduced on the real compute unit by the harness (open finding
-C14-flush-while-paused).
+capacities are arbitrary (`0 < capCP`). The counter bookkeeping (b) holds for EVERY event sequence
+(`bookkeeping_any_run`, no hypothesis at all) since `flushPipeline` no longer empties the shadow
+lists (repaired finding C14-flush-while-paused; the code before that repair is `runOld`, refuted in
+`bookkeeping_before_fix_refuted`); the acknowledgement statement (c) without the protocol hypothesis
+stays refuted (`ack_once_full_refuted`).
 -/
 namespace C14.Flush
 
@@ -358,30 +361,64 @@ example : LegalRun cfg St.init demoPlain ∧ Op.cpFlush ∉ demoPlain ∧
 
 /-! ## without the command processor's protocol -/
 
-/-- the full statement of (a)/(b) for **every** event sequence (no protocol hypothesis) -/
+/-- the full statement of (b) for **every** event sequence: no protocol hypothesis, no legality
+    hypothesis (the units may run while the unit is paused, the memory may answer with any request
+    ID), no capacity hypothesis — both counters of every wavefront -/
 def bookkeeping_full : Prop :=
-  ∀ (c : Cfg) (ops : List Op) (w : Nat), 0 < c.capCP →
+  ∀ (c : Cfg) (ops : List Op) (w : Nat),
     (run c St.init ops).vm w =
-      (cnt ((run c St.init ops).v.inf ++ (run c St.init ops).v.sh) w : Int)
+      (cnt ((run c St.init ops).v.inf ++ (run c St.init ops).v.sh) w : Int) ∧
+    (run c St.init ops).lgkm w =
+      (cnt ((run c St.init ops).v.inf ++ (run c St.init ops).v.sh) w : Int) +
+      (cnt ((run c St.init ops).s.inf ++ (run c St.init ops).s.sh) w : Int)
+
+/-- **(b) at full strength: the counters are exact after EVERY event sequence.** Since the repair —
+    `flushPipeline` appends what is in flight to the shadow lists and keeps what they hold,
+    `reInsertShadowBufferReqsToOriginalBuffers` moves the records back instead of copying them — a
+    record only ever moves between the in-flight list and the shadow list of its path, and leaves
+    them only when its answer is accepted, which is when the counters are decremented. So
+    `OutstandingVectorMemAccess` / `OutstandingScalarMemAccess` equal the number of "last
+    transaction" records of the wavefront in the lists whatever the command processor (or any other
+    control component) sends: flush while paused, flush twice, restart without flush, … In
+    particular no flush can leave a counter above zero with no record left to answer. The hypothesis
+    dropped with respect to `counters_exact` is the WHOLE of `LegalRun` (and `0 < capCP`). -/
+theorem bookkeeping_any_run : bookkeeping_full := by
+  intro c ops w
+  have h := run_Counts c ops Counts_init
+  exact ⟨h.1 w, h.2 w⟩
 
 /-- one FLAT load; flush; a second flush request while the unit is still paused by the first -/
 def lostOps : List Op := [.issV 0 1, .cpFlush, .tick, .cpFlush, .tick, .cpRestart, .tick, .tick]
 
-/-- **Refuted for the code as it is.** `flushPipeline` empties the shadow lists before
-    `populateShadowBuffers`: a flush request executed while the unit is paused by an earlier flush
-    (no restart in between — not the shipped command processor's behaviour) throws the saved records
-    away. The wavefront's counter stays at 1 for ever although no record is left: `s_waitcnt vmcnt(0)`
-    never completes and the load's destination register is never written. Reproduced on the real
-    compute unit (oracle `C14.flush.request-lost.flush-while-paused`). -/
-theorem bookkeeping_full_refuted : ¬ bookkeeping_full := by
+/-- the second flush keeps the saved record: after the restart it is re-sent (request `(0, 1)`),
+    the answer is accepted and the counter returns to 0 -/
+example : (run cfg St.init (lostOps.take 5)).v.sh.map (·.id) = [0] ∧
+    (run cfg St.init lostOps).vm 0 = 1 ∧ (run cfg St.init lostOps).v.inf.map (fun e => (e.id, e.gen)) = [(0, 1)] ∧
+    (run cfg St.init lostOps).v.out = [(0, 1)] ∧ (run cfg St.init lostOps).isPaused = false ∧
+    (run cfg St.init (lostOps ++ [.take .v 9, .deliver .v 0 1, .tick])).vm 0 = 0 ∧
+    (run cfg St.init (lostOps ++ [.take .v 9, .deliver .v 0 1, .tick])).v.applied = [0] := by decide
+
+/-- the old statement (vector counter, `0 < capCP`) for the code BEFORE the repair (`runOld`) -/
+def bookkeeping_before_fix : Prop :=
+  ∀ (c : Cfg) (ops : List Op) (w : Nat), 0 < c.capCP →
+    (runOld c St.init ops).vm w =
+      (cnt ((runOld c St.init ops).v.inf ++ (runOld c St.init ops).v.sh) w : Int)
+
+/-- **Refuted before the repair.** `flushPipeline` emptied the shadow lists before
+    `populateShadowBuffers`: a flush request executed while the unit was paused by an earlier flush
+    (no restart in between — not the shipped command processor's behaviour) threw the saved records
+    away. The wavefront's counter stayed at 1 for ever although no record was left: `s_waitcnt
+    vmcnt(0)` never completed and the load's destination register was never written. Reproduced on
+    the real compute unit before the repair (oracle `C14.flush.request-lost.flush-while-paused`). -/
+theorem bookkeeping_before_fix_refuted : ¬ bookkeeping_before_fix := by
   intro h
   have := h cfg lostOps 0 (by decide)
   revert this
   decide
 
-example : (run cfg St.init lostOps).vm 0 = 1 ∧ (run cfg St.init lostOps).v.inf = [] ∧
-    (run cfg St.init lostOps).v.sh = [] ∧ (run cfg St.init lostOps).v.applied = [] ∧
-    (run cfg St.init lostOps).isPaused = false := by decide
+example : (runOld cfg St.init lostOps).vm 0 = 1 ∧ (runOld cfg St.init lostOps).v.inf = [] ∧
+    (runOld cfg St.init lostOps).v.sh = [] ∧ (runOld cfg St.init lostOps).v.applied = [] ∧
+    (runOld cfg St.init lostOps).isPaused = false := by decide
 
 /-- the full statement of (c) for every event sequence -/
 def ack_once_full : Prop :=
